@@ -22,6 +22,8 @@ def main():
     sys.path.insert(0, ROOT)
     if os.environ.get("SYMX_REPO"):
         sys.path.insert(0, os.environ["SYMX_REPO"])   # analyse a scratch copy of the repository (mutant runs); default is /repo
+    if len(sys.argv) > 1 and (sys.argv[1] == "C13" or (sys.argv[1] == "--replay" and "C13" in os.path.basename(sys.argv[2]))):
+        sys.path.insert(0, os.path.join(ROOT, "stubs_c13"))     # stand-in `pylops` base class (see DESIGN.md C13)
     import warnings
     warnings.filterwarnings("ignore")
     import io, contextlib
